@@ -1,1 +1,709 @@
-fn main() { println!("sched"); }
+//! E3 — calling-process detection (C20) under shuttle's controlled scheduler.
+//!
+//! Real code: `utils/process.rs` (CALLER, CALLER_INFO_SOURCE, the detection thread, the
+//! `cfg(not(test))` `calling_process()`), `set_calling_process`, and — scenario S2 — option
+//! parsing, `Config::from`, `delta()` and every call site that queries the calling process.
+//! Stub: only the scan of the process table (`sim_guess`).
+//!
+//! One integer decides everything: the scheduler seed.  Scenario parameters are drawn from
+//! `shuttle::rand`, so they are part of the persisted schedule and replay with it.
+//!
+//! The `static` shuttle atomic in process.rs is one value per OS process, so the batch is
+//! parallelised over worker *processes*, never threads.
+
+use delta::verif_hooks as dh;
+use serde_json::json;
+use shuttle::rand::Rng as _;
+use shuttle::scheduler::{PctScheduler, RandomScheduler, ReplayScheduler};
+use shuttle::{Config, FailurePersistence, MaxSteps, Runner};
+use simcore::evidence::Evidence;
+use simcore::rng::{fnv64, mix, tag, verif_seed};
+use std::collections::{BTreeMap, BTreeSet, HashMap};
+use std::io::Write as _;
+use std::panic::{catch_unwind, AssertUnwindSafe};
+use std::sync::Mutex;
+use std::time::Instant;
+
+// ---------------------------------------------------------------------------
+// statistics shared across executions of one worker process (plain std: not scheduled)
+
+#[derive(Default)]
+struct Stats {
+    executions: u64,
+    distinct_traces: BTreeSet<u64>,
+    classes: BTreeMap<String, u64>,
+    steps: u64,
+    samples: Vec<String>,
+}
+
+static STATS: Mutex<Option<Stats>> = Mutex::new(None);
+static REFS: Mutex<Option<HashMap<String, Vec<u8>>>> = Mutex::new(None);
+
+fn with_stats<F: FnOnce(&mut Stats)>(f: F) {
+    let mut g = STATS.lock().unwrap();
+    if g.is_none() {
+        *g = Some(Stats::default());
+    }
+    f(g.as_mut().unwrap());
+}
+
+/// A scheduling point (no priority change under PCT).
+fn pause() {
+    shuttle::thread::sleep(std::time::Duration::from_millis(0));
+}
+
+/// Body of a spin-wait: tells the scheduler this thread cannot make progress by itself.
+fn spin() {
+    shuttle::thread::yield_now();
+}
+
+fn rnd(n: u64) -> u64 {
+    shuttle::rand::thread_rng().gen::<u64>() % n.max(1)
+}
+
+fn s(v: &[&str]) -> Vec<String> {
+    v.iter().map(|x| x.to_string()).collect()
+}
+
+/// Command lines the process-table scan may find / delta may have launched itself.
+/// All describe different calling processes, so every answer is attributable to one writer.
+const COMMANDS: &[&[&str]] = &[
+    &["git", "diff", "--word-diff"],
+    &["git", "diff"],
+    &["git", "show", "HEAD:src/x.rs"],
+    &["git", "log", "-p", "--relative"],
+    &["git", "blame", "src/main.rs"],
+    &["git", "grep", "-n", "fn"],
+    &["git", "grep", "-W", "fn"],
+    &["rg", "fn"],
+    &["git", "reflog", "-p"],
+];
+/// Accepted by `git` detection but not a command delta describes: nothing is published.
+const REJECTED: &[&[&str]] = &[&["git", "status"], &["git", "-c", "x=y", "commit"], &["ls", "-l"]];
+
+fn describe(args: &[String]) -> String {
+    format!("{:?}", args)
+}
+
+// ---------------------------------------------------------------------------
+// S1: the protocol
+
+fn expected_of(args: &[String]) -> dh::CallingProcess {
+    // the same parser delta uses; what matters to the oracles is identity, not content
+    delta::verif_hooks::set_sim_guess(Some(args.to_vec()), 0);
+    // describe_calling_process is pure; reuse sim_guess's path without yielding
+    let v = delta::verif_hooks::sim_guess();
+    // undo the trace entry sim_guess pushed
+    let mut t = dh::trace_take();
+    t.pop();
+    for e in t {
+        dh::trace_push(e);
+    }
+    v
+}
+
+fn query(tag_start: &'static str, tag_end: &'static str) -> dh::CallingProcess {
+    dh::trace_push(tag_start);
+    let v = {
+        let g = dh::calling_process();
+        (*g).clone()
+    };
+    dh::trace_push(tag_end);
+    v
+}
+
+fn scenario_s1(max_queries: u64, allow_second_reader: bool) {
+    dh::verif_reset_caller_info_source();
+    let _ = dh::trace_take();
+
+    // parameters (from the scheduler's PRNG: replayable)
+    let guess_args: Option<Vec<String>> = if rnd(5) == 0 { None } else { Some(s(COMMANDS[rnd(COMMANDS.len() as u64) as usize])) };
+    let publish_kind = rnd(4); // 0: none launched, 1..2: known command, 3: rejected command
+    let mut known_args: Option<Vec<String>> = None;
+    let mut rejected_args: Option<Vec<String>> = None;
+    if publish_kind == 1 || publish_kind == 2 {
+        // must differ from the guess
+        loop {
+            let k = s(COMMANDS[rnd(COMMANDS.len() as u64) as usize]);
+            if Some(&k) != guess_args.as_ref() {
+                known_args = Some(k);
+                break;
+            }
+        }
+    } else if publish_kind == 3 {
+        rejected_args = Some(s(REJECTED[rnd(REJECTED.len() as u64) as usize]));
+    }
+    let scan_yields = rnd(4) as usize;
+    let n_queries = 1 + rnd(max_queries);
+    let pauses_before_publish = rnd(3);
+    let second_reader = allow_second_reader && rnd(3) == 0;
+
+    let guess_val = match &guess_args {
+        Some(a) => expected_of(a),
+        None => dh::CallingProcess::None,
+    };
+    let known_val = known_args.as_ref().map(|a| expected_of(a));
+    dh::set_sim_guess(guess_args.clone(), scan_yields);
+
+    // --- the system under test, in the order main.rs uses ---
+    dh::start_determining_calling_process_in_thread();
+    for _ in 0..pauses_before_publish {
+        pause();
+    }
+    let mut published = false;
+    if let Some(k) = &known_args {
+        dh::trace_push("K-start");
+        dh::set_calling_process(k);
+        dh::trace_push("K-done");
+        published = true;
+    } else if let Some(r) = &rejected_args {
+        dh::trace_push("K-start");
+        dh::set_calling_process(r);
+        dh::trace_push("K-rejected");
+    }
+
+    let reader = if second_reader {
+        let kv = known_val.clone();
+        let gv = guess_val.clone();
+        Some(shuttle::thread::spawn(move || {
+            // a second thread querying the process-global API
+            let v = {
+                let g = dh::calling_process();
+                (*g).clone()
+            };
+            assert!(v != dh::CallingProcess::Pending, "O1: second reader observed Pending");
+            if published {
+                assert!(Some(&v) == kv.as_ref(), "O2: second reader got {:?} after a known command was published", v);
+            } else {
+                assert!(v == gv, "O2b: second reader got {:?}, expected the background answer {:?}", v, gv);
+            }
+        }))
+    } else {
+        None
+    };
+
+    let mut answers: Vec<dh::CallingProcess> = Vec::new();
+    const QS: [&str; 6] = ["Q0-start", "Q1-start", "Q2-start", "Q3-start", "Q4-start", "Q5-start"];
+    const QE: [&str; 6] = ["Q0-ret", "Q1-ret", "Q2-ret", "Q3-ret", "Q4-ret", "Q5-ret"];
+    for i in 0..n_queries as usize {
+        let v = query(QS[i], QE[i]);
+        // O1
+        assert!(v != dh::CallingProcess::Pending, "O1: query {} observed Pending", i);
+        // O2
+        if published {
+            assert!(Some(&v) == known_val.as_ref(), "O2: query {} returned {:?} although the launched command {:?} had been published", i, v, known_val);
+        } else {
+            assert!(v == guess_val, "O2b: query {} returned {:?}, expected the background answer {:?}", i, v, guess_val);
+        }
+        // O3
+        if let Some(prev) = answers.last() {
+            assert!(prev == &v, "O3: answers changed between queries: {:?} then {:?}", prev, v);
+        }
+        answers.push(v);
+        for _ in 0..rnd(3) {
+            pause();
+        }
+    }
+    // O5: after the background thread has finished its critical section the cell still holds the right value
+    let mut spins = 0;
+    while !dh::trace_contains("D-done") {
+        spin();
+        spins += 1;
+        assert!(spins < 10_000, "O4: background determination never finished");
+    }
+    let fin = query("QF-start", "QF-ret");
+    assert!(fin != dh::CallingProcess::Pending, "O1: final query observed Pending");
+    if published {
+        assert!(Some(&fin) == known_val.as_ref(), "O5: after the background thread finished the answer is {:?}, the launched command {:?} was overwritten", fin, known_val);
+    } else {
+        assert!(fin == guess_val, "O5: final answer {:?}, expected {:?}", fin, guess_val);
+    }
+    if let Some(r) = reader {
+        r.join().unwrap();
+    }
+    record_trace("S1", &format!("guess={} known={} rejected={} q={}", guess_args.as_ref().map(|a| describe(a)).unwrap_or("none".into()), known_args.as_ref().map(|a| describe(a)).unwrap_or("none".into()), rejected_args.is_some(), n_queries));
+}
+
+/// Event-order class of the execution: where the background thread's scan finished and where its
+/// critical section ended, relative to the main thread's publication and queries.
+fn record_trace(scn: &str, params: &str) {
+    let t = dh::trace_take();
+    let pos = |e: &str| t.iter().position(|x| *x == e);
+    let mut classes: Vec<String> = Vec::new();
+    for (name, ev) in [("scan-done", "D-scan-done"), ("critical-section-end", "D-done")] {
+        if let Some(p) = pos(ev) {
+            // the last main-thread event before it
+            let before = t[..p].iter().rev().find(|x| !x.starts_with("D-")).copied().unwrap_or("spawn");
+            let cls = match before {
+                "spawn" => "before-publication-and-queries".to_string(),
+                "K-start" => "during-publication".to_string(),
+                "K-done" | "K-rejected" => "between-publication-and-first-query".to_string(),
+                x if x.ends_with("-start") => "while-a-query-is-running-or-waiting".to_string(),
+                x if x.ends_with("-ret") => "between-or-after-queries".to_string(),
+                x => x.to_string(),
+            };
+            classes.push(format!("{}.{}.{}", scn, name, cls));
+        }
+    }
+    let h = fnv64(format!("{}|{:?}", params, t).as_bytes());
+    with_stats(|st| {
+        st.executions += 1;
+        st.distinct_traces.insert(h);
+        for c in classes {
+            *st.classes.entry(c).or_default() += 1;
+        }
+        st.steps += t.len() as u64;
+        if st.samples.len() < 3 {
+            st.samples.push(format!("{} {} trace={:?}", scn, params, t));
+        }
+    });
+}
+
+// ---------------------------------------------------------------------------
+// S2: the application
+
+struct Variant {
+    name: &'static str,
+    delta_args: &'static [&'static str],
+    /// the command that produced the input
+    real_cmd: &'static [&'static str],
+    /// a different command the scan might wrongly... find when delta launched the real one itself
+    other_cmd: &'static [&'static str],
+    input: &'static str,
+}
+
+const DIFF_WD: &str = "diff --git a/src/x.rs b/src/x.rs\nindex 1111111..2222222 100644\n--- a/src/x.rs\n+++ b/src/x.rs\n@@ -1,3 +1,3 @@ fn main()\n let a = 1;\n let [-b-]{+c+} = 2;\n let d = 3;\n";
+const DIFF: &str = "diff --git a/src/x.rs b/src/x.rs\nindex 1111111..2222222 100644\n--- a/src/x.rs\n+++ b/src/x.rs\n@@ -1,3 +1,3 @@ fn main()\n let a = 1;\n-let b = 2;\n+let c = 2;\n let d = 3;\n";
+const BLAME: &str = "aaaaaaa1 (Dan Davison 2021-01-01 10:00:00 +0100  1) fn main() {\naaaaaaa1 (Dan Davison 2021-01-01 10:00:00 +0100  2)     let x = 1;\nbbbbbbb2 (A U Thor    2021-02-01 10:00:00 +0100  3) }\n";
+const GREP: &str = "src/x.rs:10:fn main() {\nsrc/x.rs-11-    let x = 1;\nsrc/y.py:3:def fn():\n";
+const SHOWFILE: &str = "fn main() {\n    let x = \"str\";\n}\n";
+
+const VARIANTS: &[Variant] = &[
+    Variant { name: "word-diff", delta_args: &[], real_cmd: &["git", "diff", "--word-diff"], other_cmd: &["git", "diff"], input: DIFF_WD },
+    Variant { name: "plain-diff", delta_args: &["--line-numbers"], real_cmd: &["git", "diff"], other_cmd: &["git", "diff", "--word-diff"], input: DIFF },
+    Variant { name: "blame", delta_args: &[], real_cmd: &["git", "blame", "src/x.rs"], other_cmd: &["git", "blame", "notes.txt"], input: BLAME },
+    Variant { name: "grep", delta_args: &[], real_cmd: &["git", "grep", "-n", "fn"], other_cmd: &["git", "diff"], input: GREP },
+    Variant { name: "grep-W", delta_args: &[], real_cmd: &["git", "grep", "-W", "-n", "fn"], other_cmd: &["git", "grep", "-n", "fn"], input: GREP },
+    Variant { name: "show-file", delta_args: &[], real_cmd: &["git", "show", "HEAD:src/x.rs"], other_cmd: &["git", "show", "HEAD:notes.txt"], input: SHOWFILE },
+    Variant { name: "relative-paths", delta_args: &["--relative-paths", "--hyperlinks"], real_cmd: &["git", "diff", "--relative"], other_cmd: &["git", "diff"], input: DIFF },
+    Variant { name: "side-by-side-word-diff", delta_args: &["--side-by-side"], real_cmd: &["git", "show", "--word-diff"], other_cmd: &["git", "show"], input: DIFF_WD },
+];
+
+/// Run delta the way main.rs does, return the rendered bytes.
+fn render(v: &Variant, launched: bool, scan_finds: Option<Vec<String>>, scan_yields: usize, sequential: bool) -> Vec<u8> {
+    dh::verif_reset_caller_info_source();
+    dh::set_sim_guess(scan_finds, scan_yields);
+    dh::start_determining_calling_process_in_thread();
+    if sequential {
+        let mut spins = 0;
+        while !dh::trace_contains("D-done") {
+            spin();
+            spins += 1;
+            assert!(spins < 10_000, "O4: background determination never finished");
+        }
+    }
+    let mut args: Vec<std::ffi::OsString> = vec!["delta".into(), "--no-gitconfig".into(), "--width".into(), "100".into(), "--paging".into(), "never".into()];
+    for a in v.delta_args {
+        args.push((*a).into());
+    }
+    if launched {
+        // delta launched the command itself: `delta git diff ...`
+        for a in v.real_cmd {
+            args.push((*a).into());
+        }
+    }
+    let env = dh::DeltaEnv::default();
+    let assets = dh::load_highlighting_assets();
+    let (call, opt) = dh::Opt::from_args_and_git_config(args, &env, assets);
+    if let dh::Call::SubCommand(_, cmd) = &call {
+        dh::trace_push("K-start");
+        dh::set_calling_process(&cmd.args.iter().map(|a| a.to_string_lossy().to_string()).collect::<Vec<_>>());
+        dh::trace_push("K-done");
+    }
+    if rnd(2) == 0 && !sequential {
+        pause();
+    }
+    let opt = opt.expect("Opt");
+    dh::trace_push("Q0-start");
+    let config = dh::Config::from(opt);
+    dh::trace_push("Q0-ret");
+    let mut out: Vec<u8> = Vec::new();
+    {
+        use bytelines::ByteLinesReader;
+        let reader = std::io::BufReader::new(v.input.as_bytes());
+        dh::trace_push("Q1-start");
+        dh::delta(reader.byte_lines(), &mut out, &config).expect("delta() failed");
+        dh::trace_push("Q1-ret");
+    }
+    // let the background thread finish before the execution ends (and check liveness)
+    let mut spins = 0;
+    while !dh::trace_contains("D-done") {
+        spin();
+        spins += 1;
+        assert!(spins < 10_000, "O4: background determination never finished");
+    }
+    out
+}
+
+fn scenario_s2(reference_pass: bool, fixed: Option<(usize, bool)>) {
+    let _ = dh::trace_take();
+    let (vi, launched) = match fixed {
+        Some(x) => x,
+        None => (rnd(VARIANTS.len() as u64) as usize, rnd(2) == 0),
+    };
+    let v = &VARIANTS[vi];
+    // what the scan finds: when delta launched the command, the scan may find something else
+    // (it must never win); otherwise it finds the real producer of the input.
+    let scan_finds: Option<Vec<String>> = if launched {
+        if rnd(3) == 0 {
+            None
+        } else {
+            Some(s(v.other_cmd))
+        }
+    } else {
+        Some(s(v.real_cmd))
+    };
+    let key = format!("{}:{}", v.name, launched);
+    if reference_pass {
+        let out = render(v, launched, scan_finds, 0, true);
+        let mut g = REFS.lock().unwrap();
+        g.get_or_insert_with(HashMap::new).insert(key, out);
+        let _ = dh::trace_take();
+        return;
+    }
+    let yields = rnd(4) as usize;
+    let out = render(v, launched, scan_finds.clone(), yields, false);
+    let refs = REFS.lock().unwrap();
+    let want = refs.as_ref().and_then(|m| m.get(&key)).expect("reference output missing");
+    assert!(
+        &out == want,
+        "O6: rendered output depends on the thread schedule (variant {}, launched={}, scan finds {:?}):\n--- sequential reference ---\n{}\n--- this schedule ---\n{}",
+        v.name,
+        launched,
+        scan_finds,
+        String::from_utf8_lossy(want),
+        String::from_utf8_lossy(&out)
+    );
+    drop(refs);
+    record_trace("S2", &format!("variant={} launched={}", v.name, launched));
+}
+
+// ---------------------------------------------------------------------------
+
+fn config(dir: &str, big_stack: bool) -> Config {
+    let mut c = Config::new();
+    c.stack_size = if big_stack { 16 << 20 } else { 1 << 20 };
+    c.failure_persistence = FailurePersistence::File(Some(dir.into()));
+    c.max_steps = MaxSteps::FailAfter(200_000);
+    c.silence_warnings = true;
+    c
+}
+
+fn s2_references(dir: &str) {
+    // sequential reference outputs, one deterministic execution per (variant, launched)
+    for vi in 0..VARIANTS.len() {
+        for launched in [false, true] {
+            let runner = Runner::new(RandomScheduler::new_from_seed(1, 1), config(dir, true));
+            runner.run(move || scenario_s2(true, Some((vi, launched))));
+        }
+    }
+}
+
+fn run_worker(scenario: &str, sched: &str, seed: u64, iters: usize, dir: &str, cap: u64) -> i32 {
+    std::fs::create_dir_all(dir).ok();
+    let scenario_owned = scenario.to_string();
+    let big = scenario == "S2";
+    if big {
+        s2_references(dir);
+    }
+    let cfg = config(dir, big);
+    let body = move || {
+        if scenario_owned == "S1" {
+            scenario_s1(cap, cap > 1)
+        } else {
+            scenario_s2(false, None)
+        }
+    };
+    let t0 = Instant::now();
+    let res = catch_unwind(AssertUnwindSafe(|| match sched {
+        "pct1" => Runner::new(PctScheduler::new_from_seed(seed, 1, iters), cfg).run(body),
+        "pct2" => Runner::new(PctScheduler::new_from_seed(seed, 2, iters), cfg).run(body),
+        "pct3" => Runner::new(PctScheduler::new_from_seed(seed, 3, iters), cfg).run(body),
+        _ => Runner::new(RandomScheduler::new_from_seed(seed, iters), cfg).run(body),
+    }));
+    let mut out = serde_json::Map::new();
+    let st = STATS.lock().unwrap_or_else(|e| e.into_inner()).take().unwrap_or_default();
+    out.insert("executions".into(), json!(st.executions));
+    out.insert("distinct_traces".into(), json!(st.distinct_traces.iter().collect::<Vec<_>>()));
+    out.insert("classes".into(), json!(st.classes));
+    out.insert("steps".into(), json!(st.steps));
+    out.insert("samples".into(), json!(st.samples));
+    out.insert("wall_s".into(), json!(t0.elapsed().as_secs_f64()));
+    let code = match res {
+        Ok(_) => 0,
+        Err(e) => {
+            let msg = if let Some(s) = e.downcast_ref::<String>() {
+                s.clone()
+            } else if let Some(s) = e.downcast_ref::<&str>() {
+                s.to_string()
+            } else {
+                "panic".to_string()
+            };
+            out.insert("failure".into(), json!(msg));
+            1
+        }
+    };
+    let _ = std::fs::write(format!("{}/result.json", dir), serde_json::to_string(&out).unwrap());
+    code
+}
+
+fn replay(path: &str) -> i32 {
+    let text = match std::fs::read_to_string(path) {
+        Ok(t) => t,
+        Err(e) => {
+            eprintln!("cannot read {}: {}", path, e);
+            return 2;
+        }
+    };
+    let v: serde_json::Value = serde_json::from_str(&text).unwrap();
+    let scenario = v["scenario"].as_str().unwrap_or("S1").to_string();
+    let cap = v["cap"].as_u64().unwrap_or(4);
+    let schedule = v["schedule"].as_str().unwrap_or("").to_string();
+    let dir = format!("{}/replay-tmp", scratch());
+    std::fs::create_dir_all(&dir).ok();
+    let big = scenario == "S2";
+    if big {
+        s2_references(&dir);
+    }
+    let mut cfg = config(&dir, big);
+    cfg.failure_persistence = FailurePersistence::None;
+    let sc = scenario.clone();
+    let res = catch_unwind(AssertUnwindSafe(|| {
+        Runner::new(ReplayScheduler::new_from_encoded(&schedule), cfg).run(move || {
+            if sc == "S1" {
+                scenario_s1(cap, cap > 1)
+            } else {
+                scenario_s2(false, None)
+            }
+        })
+    }));
+    let _ = std::fs::remove_dir_all(&dir);
+    match res {
+        Ok(_) => {
+            println!("replay {}: no violation (property holds on this tree for this schedule)", path);
+            0
+        }
+        Err(e) => {
+            let msg = e.downcast_ref::<String>().cloned().or_else(|| e.downcast_ref::<&str>().map(|s| s.to_string())).unwrap_or_default();
+            println!("VIOLATION property=C20 replay={}", path);
+            println!("  {}", msg.lines().next().unwrap_or(""));
+            1
+        }
+    }
+}
+
+fn scratch() -> String {
+    let root = std::env::var("VERIF_SCRATCH").unwrap_or_else(|_| if std::path::Path::new("/dev/shm").is_dir() { "/dev/shm".into() } else { "/verif/.build/runs".into() });
+    format!("{}/deltasim-sched.{}", root, std::process::id())
+}
+
+fn verif_root() -> String {
+    std::env::var("VERIF_ROOT").unwrap_or_else(|_| "/verif".into())
+}
+
+fn oracle_of(msg: &str) -> String {
+    if msg.contains("deadlock") {
+        return "O4-deadlock".into();
+    }
+    if msg.contains("exceeded max_steps") || msg.contains("max_steps") {
+        return "O4-livelock".into();
+    }
+    for o in ["O1", "O2b", "O2", "O3", "O4", "O5", "O6"] {
+        if msg.contains(&format!("{}:", o)) {
+            return o.into();
+        }
+    }
+    "panic".into()
+}
+
+fn master(tier: &str, seed: u64) -> i32 {
+    let t0 = Instant::now();
+    let exe = std::env::current_exe().unwrap();
+    let base = scratch();
+    std::fs::create_dir_all(&base).ok();
+    let jobs: usize = std::env::var("VERIF_JOBS").ok().and_then(|s| s.parse().ok()).unwrap_or_else(|| std::thread::available_parallelism().map(|n| n.get()).unwrap_or(4));
+    // (scenario, scheduler, iterations per worker, number of workers)
+    let (s1_iters, s2_iters) = if tier == "thorough" { (3_000_000usize, 3_000usize) } else { (15_000usize, 40usize) };
+    let mut plan: Vec<(String, String, usize, u64)> = Vec::new();
+    let scheds = ["random", "random", "pct1", "pct2", "pct3", "random", "pct2", "random"];
+    for w in 0..jobs {
+        plan.push(("S1".into(), scheds[w % scheds.len()].into(), s1_iters, 4));
+    }
+    for w in 0..jobs {
+        plan.push(("S2".into(), scheds[(w + 1) % scheds.len()].into(), s2_iters, 4));
+    }
+    let mut results: Vec<(usize, i32, serde_json::Value)> = Vec::new();
+    let mut idx = 0;
+    while idx < plan.len() {
+        let chunk: Vec<usize> = (idx..(idx + jobs).min(plan.len())).collect();
+        let mut children = Vec::new();
+        for &i in &chunk {
+            let (sc, sd, it, cap) = &plan[i];
+            let wseed = mix(seed, &[tag("C20"), tag(sc), i as u64]);
+            let dir = format!("{}/w{}", base, i);
+            let child = std::process::Command::new(&exe)
+                .args(["worker", sc, sd, &wseed.to_string(), &it.to_string(), &dir, &cap.to_string()])
+                .stdout(std::process::Stdio::null())
+                .stderr(std::fs::File::create(format!("{}/w{}.stderr", base, i)).unwrap())
+                .spawn()
+                .expect("spawn worker");
+            children.push((i, child, dir));
+        }
+        for (i, mut c, dir) in children {
+            let st = c.wait().unwrap();
+            let v: serde_json::Value = std::fs::read_to_string(format!("{}/result.json", dir)).ok().and_then(|t| serde_json::from_str(&t).ok()).unwrap_or(json!({}));
+            results.push((i, st.code().unwrap_or(-1), v));
+        }
+        idx += jobs;
+    }
+
+    let mut ev = Evidence::new("C20", tier, seed, "exploration");
+    let mut classes: BTreeMap<String, u64> = BTreeMap::new();
+    let mut distinct: BTreeSet<u64> = BTreeSet::new();
+    let mut executions = 0u64;
+    let mut steps = 0u64;
+    let mut exit = 0;
+    let mut reported = 0;
+    let mut harness_errors = 0;
+    let known_path = format!("{}/known_findings.json", verif_root());
+    let known: serde_json::Value = std::fs::read_to_string(&known_path).ok().and_then(|t| serde_json::from_str(&t).ok()).unwrap_or(json!({}));
+    for (i, code, v) in &results {
+        executions += v["executions"].as_u64().unwrap_or(0);
+        steps += v["steps"].as_u64().unwrap_or(0);
+        if let Some(a) = v["distinct_traces"].as_array() {
+            for x in a {
+                if let Some(n) = x.as_u64() {
+                    distinct.insert(n);
+                }
+            }
+        }
+        if let Some(m) = v["classes"].as_object() {
+            for (k, n) in m {
+                *classes.entry(k.clone()).or_default() += n.as_u64().unwrap_or(0);
+            }
+        }
+        if ev.samples.len() < 6 {
+            if let Some(a) = v["samples"].as_array() {
+                for x in a.iter().take(1) {
+                    ev.samples.push(x.clone());
+                }
+            }
+        }
+        if *code != 0 {
+            let msg = v["failure"].as_str().unwrap_or("").to_string();
+            if msg.is_empty() {
+                eprintln!("HARNESS-ERROR: worker {} ended with code {} and no result (see {}/w{}.stderr)", i, code, base, i);
+                let _ = std::io::stderr().write_all(&std::fs::read(format!("{}/w{}.stderr", base, i)).unwrap_or_default());
+                harness_errors += 1;
+                continue;
+            }
+            let oracle = oracle_of(&msg);
+            let (sc, sd, _it, cap) = &plan[*i];
+            let sig = format!("{}:{}", sc, oracle);
+            if let Some(f) = known["findings"].as_array().and_then(|a| a.iter().find(|f| f["property"] == "C20" && f["signature"] == sig.as_str())) {
+                println!("KNOWN-FINDING: property=C20 {} [{}]", f["what"].as_str().unwrap_or(""), sig);
+                continue;
+            }
+            if reported >= 3 {
+                continue;
+            }
+            // the persisted schedule
+            let sched_file = format!("{}/w{}/schedule000.txt", base, i);
+            let schedule = std::fs::read_to_string(&sched_file).unwrap_or_default();
+            // minimise: re-search with the scenario capped ever lower, keep the shortest failing schedule
+            let mut best = (schedule.clone(), *cap, msg.clone());
+            if sc == "S1" {
+                for c in [1u64, 2] {
+                    let dir = format!("{}/min{}-{}", base, i, c);
+                    let wseed = mix(seed, &[tag("C20-min"), *i as u64, c]);
+                    let st = std::process::Command::new(&exe).args(["worker", "S1", sd, &wseed.to_string(), "200000", &dir, &c.to_string()]).stdout(std::process::Stdio::null()).stderr(std::process::Stdio::null()).status();
+                    if let Ok(st) = st {
+                        if st.code() == Some(1) {
+                            let r: serde_json::Value = std::fs::read_to_string(format!("{}/result.json", dir)).ok().and_then(|t| serde_json::from_str(&t).ok()).unwrap_or(json!({}));
+                            let m2 = r["failure"].as_str().unwrap_or("").to_string();
+                            let s2 = std::fs::read_to_string(format!("{}/schedule000.txt", dir)).unwrap_or_default();
+                            if oracle_of(&m2) == oracle && !s2.is_empty() && s2.len() <= best.0.len() {
+                                best = (s2, c, m2);
+                                break;
+                            }
+                        }
+                    }
+                }
+            }
+            reported += 1;
+            let rdir = std::env::var("VERIF_REPLAY_DIR").unwrap_or_else(|_| format!("{}/replays", verif_root()));
+            std::fs::create_dir_all(&rdir).ok();
+            let path = format!("{}/C20-{}-{}.json", rdir, oracle, reported);
+            let body = json!({"property": "C20", "engine": "E3-sched(shuttle)", "seed": seed, "scenario": sc, "scheduler": sd, "cap": best.1, "oracle": oracle, "message": best.2, "schedule": best.0});
+            let _ = std::fs::write(&path, serde_json::to_string_pretty(&body).unwrap() + "\n");
+            println!("VIOLATION property=C20 replay={}", path);
+            println!("  oracle={} scenario={} {}", oracle, sc, best.2.lines().next().unwrap_or(""));
+            exit = 1;
+        }
+    }
+    ev.evaluations = executions;
+    ev.distinct_nontrivial = distinct.len() as u64;
+    ev.rule = "one evaluation = one shuttle execution (one complete thread schedule) of scenario S1 (protocol: real detection thread + real set_calling_process + 1-5 real queries, optional second reader) or S2 (application: option parsing, Config::from and delta() over an input whose rendering depends on the calling process). distinct_nontrivial = distinct (scenario parameters, order of trace events across the two or three threads) tuples observed; every execution has at least two threads.".into();
+    for (k, v) in &classes {
+        ev.counters.insert(format!("order_class.{}", k), *v);
+    }
+    ev.counters.insert("workers".into(), plan.len() as u64);
+    ev.counters.insert("trace_events_total".into(), steps);
+    ev.violations = reported as u64;
+    ev.extra.insert("engine".into(), json!("E3-sched: shuttle 0.9.3, RandomScheduler and PctScheduler(depth 1..3), seeded; worker processes (the static shuttle atomic is one per process)"));
+    ev.extra.insert("real_vs_stub".into(), json!({"real": ["src/utils/process.rs protocol (Mutex/Condvar/AtomicUsize via shuttle)", "set_calling_process/describe_calling_process", "cfg(not(test)) calling_process()", "S2: Opt::from_args_and_git_config, Config::from, delta(), call sites in hunk.rs/grep.rs/blame.rs/git_show_file.rs/utils/path.rs"], "stub": ["the /proc scan inside determine_calling_process (returns a scenario-chosen command line after 0-3 scheduling points)"]}));
+    ev.extra.insert("simulated_steps".into(), json!({"trace_events": steps, "note": "delta has no timers; steps are scheduling-relevant events"}));
+    ev.assumptions = vec!["shuttle is sequentially consistent: weak-memory reorderings are not explored (both accesses to the atomic happen under the mutex)".into(), "correctness of the /proc heuristics themselves is not part of C20".into()];
+    ev.wall_s = t0.elapsed().as_secs_f64();
+    let part = std::env::var("EVIDENCE_PART").unwrap_or_else(|_| format!("{}/evidence/C20.json", verif_root()));
+    if let Err(e) = ev.write(&part) {
+        eprintln!("HARNESS-ERROR: cannot write evidence: {}", e);
+        return 2;
+    }
+    // reach: every event-order class must have been hit, else the batch is insufficient
+    if exit == 0 {
+        for need in ["S1.scan-done.before-publication-and-queries", "S1.scan-done.between-publication-and-first-query", "S1.scan-done.while-a-query-is-running-or-waiting", "S1.scan-done.between-or-after-queries", "S1.critical-section-end.while-a-query-is-running-or-waiting", "S2.scan-done.while-a-query-is-running-or-waiting"] {
+            if classes.get(need).copied().unwrap_or(0) == 0 {
+                eprintln!("HARNESS-ERROR: event-order class {} never reached", need);
+                exit = 2;
+            }
+        }
+    }
+    if harness_errors > 0 && exit == 0 {
+        exit = 2;
+    }
+    println!("C20 {}: {} executions, {} distinct (parameters, event order) tuples, {} violations, {:.1}s", tier, executions, distinct.len(), reported, ev.wall_s);
+    let _ = std::fs::remove_dir_all(&base);
+    exit
+}
+
+fn main() {
+    let args: Vec<String> = std::env::args().collect();
+    match args.get(1).map(|x| x.as_str()) {
+        Some("worker") => {
+            let code = run_worker(&args[2], &args[3], args[4].parse().unwrap(), args[5].parse().unwrap(), &args[6], args[7].parse().unwrap());
+            std::process::exit(code);
+        }
+        Some("C20") => {
+            if let Some(i) = args.iter().position(|a| a == "--replay") {
+                std::process::exit(replay(&args[i + 1]));
+            }
+            let tier = args.get(2).map(|x| x.as_str()).unwrap_or("quick");
+            std::process::exit(master(tier, verif_seed()));
+        }
+        _ => {
+            eprintln!("usage: deltasim-sched C20 quick|thorough [--replay file]");
+            std::process::exit(2);
+        }
+    }
+}
